@@ -559,11 +559,11 @@ void TasgridWrapper::outputPoints(output_points_mode mode) const{
 void TasgridWrapper::outputIndexes(output_points_mode mode) const{
     const int *p = (mode == output_points_mode::needed) ? grid.getNeededIndexes() : grid.getPointsIndexes();
     int num_points = (mode == output_points_mode::needed) ? grid.getNumNeeded() : grid.getNumPoints();
-    Data2D<double> pv(num_dimensions, num_points);
-    std::transform(p, p + Utils::size_mult(num_points, num_dimensions), pv.getStrip(0), [](int i)->double{ return double(i); });
+    std::vector<double> pv(Utils::size_mult(num_points, num_dimensions));
+    std::transform(p, p + pv.size(), pv.begin(), [](int i)->double{ return double(i); });
 
-    writeMatrix(outfilename, num_points, num_dimensions, pv.getStrip(0));
-    printMatrix(num_points, num_dimensions, pv.getStrip(0));
+    writeMatrix(outfilename, num_points, num_dimensions, pv.data());
+    printMatrix(num_points, num_dimensions, pv.data());
 }
 void TasgridWrapper::outputQuadrature() const{
     if (outfilename.empty() and not printCout) return;
